@@ -298,6 +298,11 @@ func (s *PortHist) Run(env *core.Env, st *core.Stats) (vs []core.Violation) {
 			if viol != nil {
 				return
 			}
+			// the observable open state follows the model after every call
+			if i > 0 && (in.IsOpen() != m.inOpen || out.IsOpen() != m.outOpen) {
+				fail("idempotent-open-close", "isopen-state", "after op %d (%s): in.IsOpen()=%v out.IsOpen()=%v, the calls so far leave in=%v out=%v", i-1, s.Ops[i-1].Op, in.IsOpen(), out.IsOpen(), m.inOpen, m.outOpen)
+				return
+			}
 			state := fmt.Sprintf("in=%v,out=%v,listening=%v", m.inOpen, m.outOpen, m.listener >= 0)
 			st.ReachKey(state + "|" + op.Op)
 			switch op.Op {
